@@ -5,6 +5,7 @@ SIGKILLs itself at the k-th hit of each hook point (optionally with the flusher 
 LoadSidecar accepts afterwards is compared chunk by chunk with the source."""
 import json
 from checks import crashgen as G
+from checks import e2egen as G2
 
 LEVEL = "proof"
 
@@ -61,7 +62,12 @@ def run(ctx):
                           f"after a kill at {c['name']} the sidecar on disk marks chunks that are not in the file: {r['unsound'][:3]}", {"case": c, "result": r})
         if r.get("note"):
             ctx.oblige(f"run:{c['name']}", False, r["note"][:200])
+    bigs = G2.big_cases(rng, ctx.tier == "thorough")
+    rcb, bres = G2.run_xfer(ctx, exe, "big", bigs, timeout=600)
+    ctx.oblige("harness:big", rcb == 0 and len(bres) == len(bigs), ctx.harness_stderr[-300:])
+    nbig = G2.judge_big(ctx, "C05", bigs, bres)
     ctx.coverage.update({
+        "big_sparse_files_above_4GiB": nbig,
         "evaluations": len(cases) + len(wl), "distinct_nontrivial": with_marks,
         "rule": "for each workload (fixed 3 + seeded), the real transfer over netsim runs in a child process that SIGKILLs itself at the k-th hit of each of 6 hook points "
                 "(before write, after write, after mark, between temp write and rename, after rename, before finalize) for every k (thorough) or a stride (quick), with and without "
